@@ -260,9 +260,15 @@ class DocGen:
 # programs
 # ---------------------------------------------------------------------------------------------
 STAGE1 = ['new', 'add', 'set', 'del', 'rmannot', 'prune']
-ALL_OPS = STAGE1 + ['delpages', 'renumber', 'compress', 'decompress', 'ccs', 'cpc', 'apc', 'atpc', 'gocr', 'addx', 'addgs', 'content']
+ALL_OPS = STAGE1 + ['delpages', 'renumber', 'compress', 'decompress', 'ccs', 'cpc', 'apc', 'atpc', 'gocr', 'addx', 'addgs', 'content',
+                    'bm', 'outline', 'save']
 WEIGHTS = {'new': 2, 'add': 3, 'set': 3, 'del': 4, 'rmannot': 2, 'prune': 2, 'delpages': 3, 'renumber': 1, 'compress': 2,
-           'decompress': 2, 'ccs': 2, 'cpc': 4, 'apc': 4, 'atpc': 2, 'gocr': 2, 'addx': 4, 'addgs': 3, 'content': 3}
+           'decompress': 2, 'ccs': 2, 'cpc': 4, 'apc': 4, 'atpc': 2, 'gocr': 2, 'addx': 4, 'addgs': 3, 'content': 3,
+           'bm': 3, 'outline': 1, 'save': 1}
+ALLOCATING = ['new', 'add', 'add', 'apc', 'cpc', 'atpc', 'set']
+PALETTE = [b'0', b'1', b'0.5', b'0.25', b'0.75']
+TITLES = ['Chapter', 'Section 1', 'A (b) \\ c', 'Intro', '\u00dcbersicht', '\u76ee\u6b21', 'x\U0001f600y', '']
+SAVE_MAX = 1000000
 
 TINY_OPS = [('q', []), ('Q', []), ('BT', []), ('ET', []), ('Do', [('n', b'Im1')]), ('w', [('i', 2)]), ('m', [('i', 0), ('i', 0)])]
 
@@ -280,6 +286,9 @@ class ProgGen:
         self.ids = list(g.objects)
         self.cur_max = g.max_id
         self.fresh = []            # ids handed out by new_object_id and not yet set
+        self.nbm = 0               # bookmark ids handed out by add_bookmark
+        self.bm_roots = []         # Document.bookmarks
+        self.bm_children = {}      # bookmark id -> children
 
     def any_id(self):
         rng = self.rng
@@ -387,7 +396,72 @@ class ProgGen:
             return L(k, OID(*page()), xb(nm), OID(*x))
         if k == 'content':
             return L('content', OID(*page()))
+        if k == 'bm':
+            return self.bookmark(None)
+        if k == 'outline':
+            return self.outline()
+        if k == 'save':
+            stream = rng.random() < 0.5
+            if stream and self.cur_max <= SAVE_MAX and self.cur_max < U32_MAX - 1:
+                self.cur_max += 1
+            return L('save', 'stream' if stream else 'table')
         raise ValueError(k)
+
+    def bookmark(self, nested):
+        """one add_bookmark call; nested=True forces an existing parent, False a root, None picks"""
+        rng = self.rng
+        g = self.g
+        r = rng.random()
+        if nested is True and self.nbm:
+            par = rng.randint(1, self.nbm)
+        elif nested is False or not self.nbm or r < 0.35:
+            par = None
+        elif r < 0.9:
+            par = rng.randint(1, self.nbm)
+        else:
+            par = rng.choice([0, self.nbm + 1, self.nbm + 7])          # unknown parent: an orphan
+        self.nbm += 1
+        self.bm_children[self.nbm] = []
+        if par is None:
+            self.bm_roots.append(self.nbm)
+        elif par in self.bm_children and par != self.nbm:
+            self.bm_children[par].append(self.nbm)
+        t = rng.choice(TITLES) + ('' if rng.random() < 0.5 else str(self.nbm))
+        pg = rng.choice(g.pages) if g.pages and rng.random() < 0.9 else self.any_id()
+        return L('bm', L('t', *[str(ord(c)) for c in t]), str(rng.randint(0, 3)),
+                 L('c', xb(rng.choice(PALETTE)), xb(rng.choice(PALETTE)), xb(rng.choice(PALETTE))),
+                 OID(*pg), 'none' if par is None else str(par))
+
+    def outline(self):
+        def items(ids):
+            return sum(1 + items(self.bm_children[i]) for i in ids)
+        if self.bm_roots:
+            n = 1 + 2 * items(self.bm_roots)
+            if self.cur_max + n <= U32_MAX:
+                self.ids += [(self.cur_max + j, 0) for j in range(1, n + 1)]
+                self.cur_max += n
+        return L('outline')
+
+    def outline_program(self):
+        """a nested bookmark forest, build_outline, then operations that allocate (the ids must not collide with the
+        outline objects), possibly a second build_outline"""
+        rng = self.rng
+        ops = []
+        for _ in range(rng.randint(0, 3)):
+            ops.append(self.one(ALL_OPS))
+        ops.append(self.bookmark(False))
+        for _ in range(rng.randint(1, 7)):
+            ops.append(self.bookmark(True if rng.random() < 0.7 else None))
+            if rng.random() < 0.15:
+                ops.append(self.one(ALL_OPS))
+        ops.append(self.outline())
+        for _ in range(rng.randint(1, 8)):
+            ops.append(self.one(ALLOCATING if rng.random() < 0.7 else ALL_OPS))
+        if rng.random() < 0.3:
+            ops.append(self.bookmark(None))
+            ops.append(self.outline())
+            ops.append(self.one(ALLOCATING))
+        return ops
 
 
 def orc_sx(tbl):
@@ -397,6 +471,8 @@ def orc_sx(tbl):
 def gen_program(rng, kinds, maxlen=40):
     g = DocGen(rng, allow_filters=True).build()
     pg = ProgGen(rng, g)
+    if kinds == 'outline':
+        return g, pg.outline_program()
     n = rng.choice([1, 2, 3, 5, 8, 12, 20, 30, maxlen])
     n = rng.randint(1, n)
     ops = [pg.one(kinds) for _ in range(n)]
@@ -429,7 +505,7 @@ def gen_cases(rng, tier):
     progs = []
     for _ in range(n):
         r = rng.random()
-        kinds = STAGE1 if r < 0.2 else ALL_OPS
+        kinds = STAGE1 if r < 0.2 else 'outline' if r < 0.35 else ALL_OPS
         progs.append(gen_program(rng, kinds))
     z = oracle_answers(set().union(*[g.plains for g, _ in progs]))
     cases = []
